@@ -364,3 +364,37 @@ func lemmaCloseRoundTrip(code StatusCode, reason string) bool {
 //@   ensures  [nomore] inPos(r) <= old(inPos(r))+VSpecNeed(inByte(r, old(inPos(r))+1)) && inPos(r) >= old(inPos(r))
 //@   ensures  [stream] VStreamOK(r)
 //@   assigns stream(r)
+
+// ---------------------------------------------------------------------------
+// Masking (C02, RFC 6455 §5.3).
+
+// specMask64 is the key repeated twice, little endian, as the word loop of Cipher uses it.
+func specMask64(m [4]byte) uint64 {
+	w := uint64(m[0]) | uint64(m[1])<<8 | uint64(m[2])<<16 | uint64(m[3])<<24
+	return w<<32 | w
+}
+
+//@ func Cipher
+//@   props C02 C15
+//@   requires [off] 0 <= offset && offset <= 1<<62
+//@   ensures  [xor] forall(0, len(payload), func(k int) bool { return payload[k] == old(payload[k])^mask[(offset%4+k)%4] })
+//@   assigns bytes(payload)
+//@   loop 1 invariant [b] 0 <= i && i <= n && n == len(payload) && n < 8
+//@   loop 1 invariant [x] forall(0, len(payload), func(k int) bool { return payload[k] == old(payload[k])^iteByte(k < i, mask[(offset%4+k)%4], 0) })
+//@   loop 1 assigns bytes(payload)
+//@   loop 1 decreases n - i
+//@   loop 2 invariant [b] 0 <= i && i <= ln && n == len(payload) && mpos == offset%4 && ln == (4-mpos)%4 && rn == (n-ln)%16
+//@   loop 2 invariant [x] forall(0, len(payload), func(k int) bool { return payload[k] == old(payload[k])^iteByte(k < i, mask[(mpos+k)%4], 0) })
+//@   loop 2 assigns bytes(payload)
+//@   loop 2 decreases ln - i
+//@   loop 3 invariant [b] n-rn <= i && i <= n && n == len(payload) && mpos == offset%4 && ln == (4-mpos)%4 && rn == (n-ln)%16
+//@   loop 3 invariant [x] forall(0, len(payload), func(k int) bool { return payload[k] == old(payload[k])^iteByte(k < ln || (n-rn <= k && k < i), mask[(mpos+k)%4], 0) })
+//@   loop 3 assigns bytes(payload)
+//@   loop 3 decreases n - i
+//@   loop 4 invariant [b] 0 <= i && i <= n && j == ln+16*i && ln+16*n == len(payload)-rn && mpos == offset%4 && ln == (4-mpos)%4 && 0 <= rn && rn < 16
+//@   loop 4 invariant [al] (mpos+j)&3 == 0 && 0 <= j && 0 <= mpos && mpos < 4 && (i < n ==> j+16 <= len(payload)-rn && j+16 <= len(payload))
+//@   loop 4 invariant [m] m2 == specMask64(mask)
+//@   loop 4 invariant [x] forall(0, len(payload), func(k int) bool { return payload[k] == old(payload[k])^iteByte(k < j || len(payload)-rn <= k, mask[(mpos+k)&3], 0) })
+//@   loop 4 split [x] 16 j-16
+//@   loop 4 assigns bytes(payload)
+//@   loop 4 decreases n - i
